@@ -8,7 +8,7 @@ LEVEL_TEXT = {}
 THEOREMS = {
     "C03": ["production_feasible_reach", "production_branches_agree", "production_nonneg", "production_le_demand", "production_le_capacity",
             "production_le_stock_support", "production_eq_min3", "production_tight"],
-    "C04": ["Layout.writer_reader_agree", "Layout.blocks_inside", "Layout.blocks_disjoint", "Layout.blocks_cover", "Layout.blocks_partition", "deliveries_sum", "deliveries_same_ratio_orders", "deliveries_same_ratio_fd", "deliveries_reb_length",
+    "C04": ["Gen.slice_table", "Gen.slices_plain", "Gen.orders_columns", "Gen.final_demand_columns", "Gen.rebuild_part_columns", "Gen.rebuild_parts_split", "Gen.resize_keeps_orders_and_final_demand", "Gen.delivery_columns", "Gen.writer_is_layout", "Gen.reader_is_layout", "Gen.code_writer_reader_agree", "Layout.writer_reader_agree", "Layout.blocks_inside", "Layout.blocks_disjoint", "Layout.blocks_cover", "Layout.blocks_partition", "deliveries_sum", "deliveries_same_ratio_orders", "deliveries_same_ratio_fd", "deliveries_reb_length",
             "deliveries_same_ratio_reb", "deliveries_le_asked", "fd_unmet_eq", "fd_unmet_range", "reb_prod_eq"],
     "C05": ["stock_nonneg_reach_inv", "no_crash_real_inputs", "stock_update", "stock_negative_crashes", "stock_nonneg_distribute", "infinite_never_binds",
             "production_ignores_infinite", "stock_nonneg_step", "loop_stops_on_crash", "stock_nonneg_reach"],
@@ -23,7 +23,9 @@ THEOREMS = {
             "rebuild_antitone_reach"],
     "C13": ["conv_eq", "conversion_uniform", "reexpression_invariant", "capacity_homogeneous", "production_homogeneous",
             "overprod_homogeneous", "deliveries_homogeneous", "orders_homogeneous_same_branch", "gapOpen_homogeneous",
-            "deltaCap_homogeneous"],
+            "deltaCap_homogeneous", "isClose_scale_of_decisive", "isClose_not_unit_free", "roundDec_unit", "unit_change_step",
+            "unit_hyps_step", "unit_change_run", "scale_run_dimensionless", "mkParams_scale", "initEcon_scale", "trackerInit_unit",
+            "trackerInit_curveHomog", "unit_change_simulation", "closeAgree_of_decisive", "closeAgree_of_exact"],
     "C18": ["psi_one_params", "psi_one_step", "psi_one_run", "alt_share_eq_fixed_share", "alt_eq_noalt", "alt_ne_noalt_zero_capacity"],
     "C09": ["damage_before_recovery", "wake_ledgers", "damage_after", "arb_after", "finished_when_zero", "finished_no_loss",
             "linear_range", "convexe_range", "linear_antitone", "convexe_antitone", "linear_zero_at_tau", "linear_zero_after_tau",
@@ -32,7 +34,8 @@ THEOREMS = {
             "status_timeline", "shock_in_force", "pending_invisible", "prefix_event_free"],
     "C11": ["no_internal_error", "ids_lifecycle", "ids_receive", "demand_own_block", "other_blocks_empty", "credit_own_block",
             "finished_no_more", "aggregates_perm", "rebuild_total_perm", "perm_observables_step_partial", "perm_invariant_run",
-            "Layout.writer_reader_agree", "Layout.blocks_inside", "Layout.blocks_disjoint", "Layout.blocks_cover", "Layout.blocks_partition"],
+            "Layout.writer_reader_agree", "Layout.blocks_inside", "Layout.blocks_disjoint", "Layout.blocks_cover", "Layout.blocks_partition",
+            "Gen.slice_table", "Gen.slices_plain", "Gen.orders_columns", "Gen.final_demand_columns", "Gen.rebuild_part_columns", "Gen.rebuild_parts_split", "Gen.resize_keeps_orders_and_final_demand", "Gen.delivery_columns", "Gen.writer_is_layout", "Gen.reader_is_layout", "Gen.code_writer_reader_agree"],
     "C20": ["psi_above_one_rejected", "schedule_outside_horizon_rejected", "excess_capital_rejected", "negative_capacity_rejected",
             "event_tau_rejected", "event_schedule_rejected", "event_negative_impact_rejected", "event_empty_impact_rejected", "event_excess_loss_rejected", "event_shares_rejected", "event_accepted", "params_ok", "init_econ_ok", "tracker_init_ok", "inv_step", "step_quantities_nonneg", "no_silent_failure", "inv_reach"],
     "C02": ["specDemand_eq", "step_refines_spec", "nextStep_econ", "Records.phase_order"],
@@ -62,8 +65,9 @@ MODULES["C05"] = ["Boario.Properties.C05", "Boario.Properties.Reach"]
 MODULES["C07"] = ["Boario.Properties.C07", "Boario.Properties.Reach"]
 MODULES["C08"] = ["Boario.Properties.C08", "Boario.Properties.Reach"]
 MODULES["C06"] = ["Boario.Properties.C06", "Boario.Properties.Reach"]
-MODULES["C11"] = ["Boario.Properties.C11", "Boario.Properties.C11Run", "Boario.Properties.LayoutThm"]
-MODULES["C04"] = ["Boario.Properties.C04", "Boario.Properties.LayoutThm"]
+MODULES["C11"] = ["Boario.Properties.C11", "Boario.Properties.C11Run", "Boario.Properties.LayoutThm", "Boario.Properties.Slices"]
+MODULES["C13"] = ["Boario.Properties.C13", "Boario.Properties.C13Run"]
+MODULES["C04"] = ["Boario.Properties.C04", "Boario.Properties.LayoutThm", "Boario.Properties.Slices"]
 
 # scenario streams: (stream name, number of scenarios quick, thorough)
 STREAMS = {
@@ -116,7 +120,7 @@ PAIRED = {"C10": ["c10_prefix"], "C11": ["c11_order"], "C13": ["c13_units"], "C1
           "C19": ["c19_shift", "c19_late"], "C17": ["c17_determinism"]}
 
 # properties whose Lean side includes tables regenerated from the source on every run
-GEN = {"C16": True, "C17": True, "C02": True, "C14": True}
+GEN = {"C16": True, "C17": True, "C02": True, "C14": True, "C04": True, "C11": True}
 
 NONTRIVIAL = {
     "C12": ("weights", "non-uniform weights or an invalid input"),
@@ -166,7 +170,7 @@ CLAIMS = {
             "note": _NOTE, "technique": "Lean 4 theorems + per-step correspondence of EventTracker.recover (concave: raw curve values taken from the code, rounding modelled)"},
     "C10": {"text": "Theorems lifecycle_status, status_edges, status_kind_step, status_timeline_step and status_timeline (induction over the run: pending / happening / later stage exactly on schedule), shock_in_force, pending_invisible, prefix_event_free (the run with events equals the run without before the earliest occurrence), for step length 1. The life-cycle phase and ledgers compared per step; prefix checked bitwise on paired runs.",
             "note": _NOTE, "technique": "Lean 4 theorems (induction over steps, simulation of the event-free run) + per-step correspondence of the event phases + paired runs"},
-    "C11": {"text": "Theorems no_internal_error (from the well-formedness invariant, preserved by every step: C20's inv_step), ids_lifecycle / ids_receive (block ids of rebuilding events stay distinct and in range, also when events finish), demand_own_block, other_blocks_empty, credit_own_block, finished_no_more, aggregates_perm, rebuild_total_perm, the Layout theorems (writer and reader address the same columns; blocks disjoint and covering), and perm_invariant_run: two simulations that differ only by the order of their event list have, after any number of steps, the same observable state (everything the records expose, and the same events with the same ledgers, block ids aside) and one run succeeds iff the other does - by a simulation relation preserved by every phase, induction over the run. 'Beyond rounding' for the implementation and the three ways of adding events are checked on paired runs (shuffled lists at 1e-9, adding modes bitwise).",
+    "C11": {"text": "Theorems no_internal_error (from the well-formedness invariant, preserved by every step: C20's inv_step), ids_lifecycle / ids_receive (block ids of rebuilding events stay distinct and in range, also when events finish), demand_own_block, other_blocks_empty, credit_own_block, finished_no_more, aggregates_perm, rebuild_total_perm, the Layout theorems (writer and reader address the same columns; blocks disjoint and covering) together with the regenerated slice table of the source (Gen/Slices.lean; writer_is_layout, reader_is_layout, code_writer_reader_agree: the column expressions of update_rebuild_demand and rebuild_prod_*_event are those ranges for all sizes), and perm_invariant_run: two simulations that differ only by the order of their event list have, after any number of steps, the same observable state (everything the records expose, and the same events with the same ledgers, block ids aside) and one run succeeds iff the other does - by a simulation relation preserved by every phase, induction over the run. 'Beyond rounding' for the implementation and the three ways of adding events are checked on paired runs (shuffled lists at 1e-9, adding modes bitwise).",
             "note": _NOTE, "technique": "Lean 4 theorems (invariant by induction; simulation relation up to block renaming for order independence) + per-step correspondence of the whole event layer + paired runs"},
     "C20": {"text": "Theorems: the documented rejections that are decision logic of the model (psi above 1, schedule outside the horizon, capital loss above the stock, negative capacity); params_ok / init_econ_ok / tracker_init_ok (constructors establish well-formedness); inv_step and inv_reach (every physical quantity stays non-negative along every run); no_silent_failure (a step ends in ok, the crashed flag or a documented rejection, never another exception). Partial: float overflow is outside the model; the validators that live in pandas/pymrio plumbing (incomplete table, unknown labels, wrong types, record names) are exercised by a malformed-input stream against the real constructors, not modelled.",
             "note": _NOTE, "technique": "Lean 4 theorems (invariant by induction) + per-step correspondence + malformed-input stream on the real validators + finiteness/sign oracle on every state"},
@@ -174,13 +178,13 @@ CLAIMS = {
             "note": _NOTE, "technique": "Lean 4 theorems (fixed point + induction) + correspondence of construction and of every phase on event-free runs"},
     "C08": {"text": "Theorems rebuild_total/_split (creation, any number of rebuilding sectors), rebuild_presented, settle_* (one ledger cell: non-negative, exact up to half a quantum, antitone on the grid), damage_eq, rebuild_antitone_reach (any sequence of deliveries), only_rebuilding_sectors; tracker construction and the ledger phases compared per step. Hypothesis: every (rebuilding sector, affected industry) pair has a supplier (known finding F13 otherwise).",
             "note": _NOTE, "technique": "Lean 4 theorems + correspondence of EventTracker construction and ledger updates"},
-    "C13": {"text": "Theorems conversion_uniform, reexpression_invariant (same ledgers for the same event in any unit), and homogeneity of capacity, production, overproduction, deliveries, orders (same closeness branch), inventory gap and capacity-loss share. Partial: the closeness tests use a fixed absolute tolerance and the ledgers a fixed decimal quantum, so whole-run scaling is exact only up to those constants; that residue is checked on paired runs of the real code (other units, scale factors), not proved.",
+    "C13": {"text": "Theorems conversion_uniform, reexpression_invariant (same ledgers for the same event in any unit), and homogeneity of capacity, production, overproduction, deliveries, orders (same closeness branch), inventory gap and capacity-loss share. Run level (Properties/C13Run.lean): unit_change_run / unit_change_simulation - the same economy expressed in a unit 10^k times smaller (table x 10^k, model factor / 10^k, same events) gives, after any number of steps, exactly the scaled state (the ledgers keep k fewer decimals: the quantum is the same amount of money, roundDec_unit), and scale_run_dimensionless - any positive factor when no event carries a monetary ledger - both under the explicit hypothesis CloseAgree that the two allclose tests of each step take the same branch in both units (closeAgree_of_decisive / closeAgree_of_exact give sufficient conditions; isClose_not_unit_free shows the hypothesis cannot be dropped: NumPy's absolute tolerance 1e-8 is not a monetary amount). Partial: for a common factor that is not a unit change the decimal quantum does not follow, so whole-run scaling holds only to within rounding; that residue, and the float implementation of all of the above, is checked on paired runs of the real code (events in other units, table x {8, 1e3, 1e6}, unit change by 10^3 / 10^6), not proved.",
             "note": _NOTE, "technique": "Lean 4 theorems (partial, see text) + correspondence of tracker construction + paired runs across units and scales"},
     "C18": {"text": "Theorems psi_one_params (both classes get identical parameters when psi = 1 and the restoration time is one step, hence psi_one_step/_run), alt_share_eq_fixed_share and alt_eq_noalt (uniform non-zero relative capacity), alt_ne_noalt_zero_capacity (boundary witness). Bit-identity of the implementation (x1.0 exact in IEEE-754) is checked on paired runs, not proved.",
             "note": _NOTE, "technique": "Lean 4 theorems + paired runs (base vs psi=1, alt vs noalt) compared bitwise / at 1e-9"},
     "C03": {"text": "Theorems production_nonneg / _le_demand / _le_capacity / _le_stock_support / _eq_min3 / _tight / _branches_agree hold for every table size, parameter value and state (Lean 4, no bound); the production phase of the model is checked against calc_production on every explored step.",
             "note": _NOTE, "technique": "Lean 4 theorems on an exact-rational model + per-step correspondence of calc_production"},
-    "C04": {"text": "Theorems deliveries_sum / _same_ratio_* / _le_asked / fd_unmet_eq / fd_unmet_range / reb_prod_eq for every demand matrix with any number of rebuilding blocks; the full delivery matrix (hook) is compared cell by cell on every explored step.",
+    "C04": {"text": "Theorems deliveries_sum / _same_ratio_* / _le_asked / fd_unmet_eq / fd_unmet_range / reb_prod_eq for every demand matrix with any number of rebuilding blocks; the full delivery matrix (hook) is compared cell by cell on every explored step. Column arithmetic: Gen/Slices.lean is REGENERATED from the source on every run (every column slice and np.zeros shape of the functions addressing the combined demand / delivery matrix, as expressions in n_regions, n_sectors, n_fd_cat, number of rebuilding events, event id) and proved equal to the ranges of Boario.Layout for all sizes (slice_table, orders_columns, final_demand_columns, rebuild_part_columns, rebuild_parts_split, resize_keeps_orders_and_final_demand, delivery_columns, writer_is_layout, reader_is_layout, code_writer_reader_agree).",
             "note": _NOTE, "technique": "Lean 4 theorems + per-step correspondence of distribute_production (delivery matrix via hook)"},
     "C05": {"text": "Theorems stock_update, stock_negative_crashes, stock_nonneg_distribute/_step/_reach (induction over the loop), loop_stops_on_crash, infinite_never_binds, production_ignores_infinite; stock update, skip and crash path compared with the code per step.",
             "note": _NOTE, "technique": "Lean 4 theorems (invariant by induction over steps) + per-step correspondence of distribute_production"},
